@@ -112,3 +112,37 @@ class Program:
 
     def short(self, qualname):
         return qualname[len(PKG) + 1:] if qualname.startswith(PKG + '.') else qualname
+
+
+def context_hashes(analysed):
+    """sha256 per module of everything that is NOT re-analysed on every run: module- and class-level
+    statements, signatures (defaults, decorators) of all functions, and the bodies of the
+    functions that are neither verified nor inlined (trusted / not analysed).  `analysed`: short
+    qualified names (module.Class.func) of the functions whose bodies are read by the verifier.
+    Comments and docstrings are ignored (AST dump)."""
+    import glob
+    out = {}
+    for path in sorted(glob.glob(os.path.join(REPO, PKG, '*.py'))):
+        mod = os.path.basename(path)[:-3]
+        try:
+            tree = ast.parse(open(path).read())
+        except SyntaxError as e:
+            out[mod] = 'syntax-error: %s' % e
+            continue
+
+        def strip(body, prefix):
+            res = []
+            for n in body:
+                if isinstance(n, ast.Expr) and isinstance(n.value, ast.Constant) \
+                        and isinstance(n.value.value, str):
+                    continue              # docstring / bare string
+                if isinstance(n, (ast.FunctionDef, ast.AsyncFunctionDef)):
+                    q = prefix + n.name
+                    n.body = [ast.Pass()] if q in analysed else strip(n.body, q + '.')
+                elif isinstance(n, ast.ClassDef):
+                    n.body = strip(n.body, prefix + n.name + '.')
+                res.append(n)
+            return res or [ast.Pass()]
+        tree.body = strip(tree.body, mod + '.')
+        out[mod] = hashlib.sha256(ast.dump(tree).encode()).hexdigest()
+    return out
